@@ -431,6 +431,10 @@ impl<'a> PG<'a> {
                 let n = self.g.int(2, 3) as usize;
                 let mut ts: Vec<Ty> = (0..n).map(|_| Ty::Num).collect();
                 if self.cfg.nested_tuples && self.g.bool(1, 3) {
+                    if self.g.bool(1, 3) {
+                        // up to three levels, several nested siblings: (((a,b),(c,d)),(e,f))
+                        return self.deep_tuple_ty(2, true);
+                    }
                     let k = self.g.usize_below(n);
                     ts[k] = Ty::Tup(vec![Ty::Num, Ty::Num]);
                 }
@@ -442,6 +446,18 @@ impl<'a> PG<'a> {
                 Ty::Rec((0..n).map(|i| (names[i].to_string(), Ty::Num)).collect())
             }
         }
+    }
+
+    /// nested tuple type with `levels` more levels below this one. The chain of first elements
+    /// stays narrow (pairs): a literal's first element must end within the parser's lookahead.
+    fn deep_tuple_ty(&mut self, levels: u32, first_chain: bool) -> Ty {
+        let n = if first_chain { 2 } else { self.g.int(2, 3) as usize };
+        let mut ts = vec![];
+        for i in 0..n {
+            let nest = levels > 0 && self.g.bool(1, 2);
+            ts.push(if nest { self.deep_tuple_ty(levels - 1, first_chain && i == 0 || levels == 1) } else { Ty::Num });
+        }
+        Ty::Tup(ts)
     }
 
     // ------------------------------------------------------------ expressions
